@@ -112,9 +112,18 @@ pub fn contracttype(_attr: TokenStream, item: TokenStream) -> TokenStream {
                 let tys: Vec<_> = v.fields.iter().map(|f| f.ty.clone()).collect();
                 nw = quote! { soroban_sdk::shim::cmax(#nw, 0 #( + <#tys as soroban_sdk::shim::Wordy>::NW )* ) };
             }
-            for (i, v) in e.variants.iter().enumerate() {
+            // Tag of a variant: like the real SDK, the *variant name* (a Symbol) identifies the variant
+            // (the enum's own name is irrelevant); integer enums (`Variant = n`) are their integer.
+            let int_enum = e.variants.iter().all(|v| v.discriminant.is_some());
+            for (_i, v) in e.variants.iter().enumerate() {
                 let vi = &v.ident;
-                let i = i as u64;
+                let vname = vi.to_string();
+                let i = if int_enum {
+                    let (_, d) = v.discriminant.as_ref().unwrap();
+                    quote! { ((#d) as u64) }
+                } else {
+                    quote! { soroban_sdk::fnv(#vname) }
+                };
                 match &v.fields {
                     Fields::Unit => {
                         to_arms.push(quote! { #name::#vi => { out.push(#i); } });
@@ -131,15 +140,19 @@ pub fn contracttype(_attr: TokenStream, item: TokenStream) -> TokenStream {
                     Fields::Named(_) => panic!("named enum fields unsupported"),
                 }
             }
+            let tags: Vec<_> = e.variants.iter().map(|v| {
+                let vname = v.ident.to_string();
+                if int_enum { let (_, d) = v.discriminant.as_ref().unwrap(); quote! { ((#d) as u64) } } else { quote! { soroban_sdk::fnv(#vname) } }
+            }).collect();
             quote! {
                 #e
                 impl soroban_sdk::shim::Wordy for #name {
                     const NW: usize = 1 + #nw;
                     fn to_words(&self, out: &mut soroban_sdk::shim::Words) { let start = out.n; match self { #(#to_arms)* } out.pad_to(start + Self::NW); }
                     #[allow(unreachable_code)]
-                    fn from_words(r: &mut soroban_sdk::shim::Reader) -> Self { let start = r.i; let t = r.next(); let v = (|| { #(#from_arms)* soroban_sdk::shim::trap() })(); r.i = start + Self::NW; v }
+                    fn from_words(r: &mut soroban_sdk::shim::Reader) -> Self { let start = r.i; let t = r.next(); let v = (|| { #(#from_arms)* soroban_sdk::shim::assume(false); loop {} })(); r.i = start + Self::NW; v }
                     #[allow(unreachable_code)]
-                    fn symbolic() -> Self { let t: u64 = soroban_sdk::shim::nondet_below(#n); #(#sym_arms)* soroban_sdk::shim::trap() }
+                    fn symbolic() -> Self { let k: u64 = soroban_sdk::shim::nondet_below(#n); let tags = [#(#tags),*]; let t: u64 = tags[k as usize]; #(#sym_arms)* soroban_sdk::shim::assume(false); loop {} }
                 }
             }
             .into()
